@@ -233,6 +233,33 @@ class FileScan:
             return ("InclOmit", var)
         return ("Other", type(p).__name__)
 
+    def _reaching(self, use, var, lam_assign):
+        """Which binding of `var` does the load `use` see?  Only the simple shape needed is understood:
+        the nearest preceding sibling statement (walking outwards through the statement lists that
+        contain `use`) that assigns `var`.  Returns 'lambda' | 'rebound' | 'unknown'."""
+        node = use
+        while node is not None:
+            p = self.parent.get(node)
+            if p is None:
+                return "unknown"
+            for fld in ("body", "orelse", "finalbody"):
+                stmts = getattr(p, fld, None)
+                if isinstance(stmts, list) and node in stmts:
+                    for st in reversed(stmts[: stmts.index(node)]):
+                        if st is lam_assign:
+                            return "lambda"
+                        for x in ast.walk(st):
+                            if isinstance(x, ast.Name) and x.id == var and isinstance(x.ctx, ast.Store):
+                                return "lambda" if self._contains(st, lam_assign) else "rebound"
+            if isinstance(p, (ast.FunctionDef, ast.Lambda)):
+                return "unknown"
+            node = p
+        return "unknown"
+
+    @staticmethod
+    def _contains(st, target):
+        return any(x is target for x in ast.walk(st))
+
     def kw(self, call, name):
         for k in call.keywords:
             if k.arg == name:
@@ -291,7 +318,14 @@ class FileScan:
                         self.err(n, "forwarding lambda is not assigned to a name")
                     var = asg.targets[0].id
                     outer = self.enclosing(lam)[1]
-                    uses = [x for x in ast.walk(outer) if isinstance(x, ast.Name) and x.id == var and isinstance(x.ctx, ast.Load)]
+                    uses = []
+                    for x in ast.walk(outer):
+                        if isinstance(x, ast.Name) and x.id == var and isinstance(x.ctx, ast.Load):
+                            r = self._reaching(x, var, asg)
+                            if r == "lambda":
+                                uses.append(x)
+                            elif r != "rebound":
+                                self.err(x, "cannot tell whether this use of the callback name refers to the forwarding lambda")
                     for u in uses:
                         c = self.parent.get(u)
                         if not (isinstance(c, ast.Call) and isinstance(c.func, ast.Name) and c.func.id == "merge_file_level"
